@@ -83,6 +83,22 @@ CLAIMED = {
               "time limit, with known finding F8 (astronomical repetition counts)."),
         technique="Coq proof (constructor accepts iff Spec-valid; parser results valid) + boundary enumeration + malformed-input correspondence",
         design="7 C09"),
+    "C19": dict(
+        text=("Theorems (Props/C19.v) over the command-line model (Model/Cli.v: date_parse with the two ISO strptime formats then the ISO 8601 "
+              "parser with dump_as_parsed, --utc, signed offsets, date_diff, recurrence expansion with --max): unparsable items or offsets in "
+              "any slot give the exit outcome (exact characterisation of when date_parse exits); parsed points are valid; the format used is "
+              "the expression text the parser matched (same notation) or the given print format; the printed point is the left fold of the "
+              "signed additions (exact offsets: Spec instant + sum of lengths; any offsets: valid, same shape and zone); the printed difference "
+              "is sign ++ str(d) with sign '-' iff second < first, and adding the printed text back to the first point compares Eq with the "
+              "second; the recurrence output is the first N points (none for N <= 0) with C12's series theorems carried through. The model is "
+              "compared with main(argv) run in-process (stdout/SystemExit captured) on every case, next to an implementation-side oracle "
+              "(library API vs command line, first + d == second, total = seconds/unit), and malformed arguments in every slot."),
+        note=("argparse, stdin, now/--ref, the time.strptime fallback for ctime formats, --as-total arithmetic, environment variables and the "
+              "exit-status/message mapping are outside the model (the correspondence exercises --calendar, --utc, --max, --offset, "
+              "--print-format, ISODATETIMECALENDAR through the real main). A shift smaller than the printed precision is invisible in the "
+              "output: the theorems state the output as the dump of the shifted point, not that it parses back to it."),
+        technique="Coq proof (compositions of C01/C02/C04/C07/C09/C10/C12 over a model of the CLI) + in-process CLI correspondence + library-level oracle",
+        design="7 C19"),
     "C20": dict(
         text=("Theorems (Props/C20.v): the specification next_match really is the least matching (day, second) not earlier than the start "
               "(soundness and least-ness of the bounded search; date-of-day-number inverse functions proved); for a truncated point with time "
